@@ -14,13 +14,13 @@ import (
 	"github.com/cockroachdb/errors"
 	"github.com/cockroachdb/pebble"
 	"github.com/cockroachdb/pebble/internal/testkeys"
+	"github.com/cockroachdb/pebble/objstorage"
 	"github.com/cockroachdb/pebble/objstorage/objstorageprovider"
 	"github.com/cockroachdb/pebble/sstable"
 	"github.com/cockroachdb/pebble/sstable/colblk"
 	"github.com/cockroachdb/pebble/sstable/tablefilters/binaryfuse"
 	"github.com/cockroachdb/pebble/sstable/tablefilters/bloom"
 	"github.com/cockroachdb/pebble/valsep"
-	"github.com/cockroachdb/pebble/objstorage"
 	"github.com/cockroachdb/pebble/vfs"
 	"github.com/cockroachdb/pebble/wal"
 )
@@ -46,9 +46,15 @@ func (l *recLogger) Fatalf(format string, args ...interface{}) {
 
 var compressionProfiles = []func() pebble.DBCompressionSettings{
 	func() pebble.DBCompressionSettings { return pebble.DBCompressionNone },
-	func() pebble.DBCompressionSettings { return pebble.UniformDBCompressionSettings(sstable.SnappyCompression) },
-	func() pebble.DBCompressionSettings { return pebble.UniformDBCompressionSettings(sstable.ZstdCompression) },
-	func() pebble.DBCompressionSettings { return pebble.UniformDBCompressionSettings(sstable.MinLZCompression) },
+	func() pebble.DBCompressionSettings {
+		return pebble.UniformDBCompressionSettings(sstable.SnappyCompression)
+	},
+	func() pebble.DBCompressionSettings {
+		return pebble.UniformDBCompressionSettings(sstable.ZstdCompression)
+	},
+	func() pebble.DBCompressionSettings {
+		return pebble.UniformDBCompressionSettings(sstable.MinLZCompression)
+	},
 	func() pebble.DBCompressionSettings { return pebble.DBCompressionFastest },
 	func() pebble.DBCompressionSettings { return pebble.DBCompressionBalanced },
 }
@@ -1453,6 +1459,52 @@ func (r *Runner) Step(i int) error {
 	return r.health()
 }
 
+// blobAgg are the blob-file aggregates of DB.Metrics().
+type blobAgg struct {
+	Live, LiveSize                           uint64
+	ValueSize, Referenced, ReferencedBacking uint64
+}
+
+func sampleBlobAgg(db *pebble.DB) blobAgg {
+	m := db.Metrics()
+	t := m.BlobFiles.Live.Total()
+	return blobAgg{Live: t.Count, LiveSize: t.Bytes, ValueSize: m.BlobFiles.ValueSize,
+		Referenced: m.BlobFiles.ReferencedValueSize, ReferencedBacking: m.BlobFiles.ReferencedBackingValueSize}
+}
+
+// checkBlobAccounting: at a quiescent moment the aggregate "referenced value
+// bytes" reported by Metrics equals the sum over the blob references of the
+// tables of the current version (its definition); the running store maintains
+// it edit by edit, a reopened store rebuilds it from the MANIFEST in one bulk
+// edit, and both must agree with the version itself.
+func (r *Runner) checkBlobAccounting(when string) error {
+	if r.DB == nil || !r.Plan.Opt.ValSep || (r.sfs != nil && r.sfs.sp.HoldManifest > 0) {
+		return nil
+	}
+	for attempt := 0; attempt < 3; attempt++ {
+		v1 := r.DB.DebugCurrentVersion()
+		m := r.DB.Metrics()
+		if v2 := r.DB.DebugCurrentVersion(); v1 != v2 {
+			continue // a version was installed in between: not a quiescent sample
+		}
+		var want uint64
+		for l := range v1.Levels {
+			for t := range v1.Levels[l].All() {
+				for _, ref := range t.BlobReferences {
+					want += ref.ValueSize
+				}
+			}
+		}
+		r.C["blob-accounting-checks"]++
+		if got := m.BlobFiles.ReferencedValueSize; got != want {
+			return fmt.Errorf("%s: Metrics().BlobFiles.ReferencedValueSize = %d, but the blob references of the tables of the current version sum to %d (live blob files: %d, their value bytes: %d)",
+				when, got, want, m.BlobFiles.Live.Total().Count, m.BlobFiles.ValueSize)
+		}
+		return nil
+	}
+	return nil
+}
+
 // sampleLSM records LSM-shape facts for the non-triviality rules.
 func (r *Runner) sampleLSM() {
 	if r.DB == nil {
@@ -1505,7 +1557,7 @@ func (r *Runner) health() error {
 	return nil
 }
 
-func (r *Runner) step(s Step) error {
+func (r *Runner) step(s Step) (err error) {
 	ctx := context.Background()
 	switch s.K {
 	case "write":
@@ -1577,6 +1629,7 @@ func (r *Runner) step(s Step) error {
 		r.L["manual-compact"] = true
 	case "wait":
 		r.Wait()
+		return r.checkBlobAccounting("at a quiescent point")
 	case "waithold":
 		// until a background version edit is written but not yet synced
 		if r.sfs.waitHold() {
@@ -1591,10 +1644,38 @@ func (r *Runner) step(s Step) error {
 				return fmt.Errorf("flush before restart: %v", err)
 			}
 		}
+		// Replay determinism of the blob-file accounting: with value separation
+		// and only manual compactions, a store that is flushed and idle shows the
+		// same blob aggregates after Close + Open (the reopened store rebuilds
+		// them from the MANIFEST in one bulk edit; the running store maintained
+		// them edit by edit).
+		var blobBefore *blobAgg
+		if r.Plan.Opt.ValSep && r.Plan.Opt.DisableAutoCompaction && r.stepIdx%2 == 0 {
+			if err := r.DB.Flush(); err != nil {
+				return fmt.Errorf("flush before restart: %v", err)
+			}
+			r.Wait()
+			b := sampleBlobAgg(r.DB)
+			blobBefore = &b
+		}
 		if err := r.Close(); err != nil {
 			return err
 		}
 		r.markDurable()
+		defer func() {
+			if blobBefore == nil || err != nil || r.DB == nil {
+				return
+			}
+			r.Wait()
+			if err = r.checkBlobAccounting("after Close + Open"); err != nil {
+				return
+			}
+			after := sampleBlobAgg(r.DB)
+			r.C["blob-accounting-restart-checks"]++
+			if after != *blobBefore {
+				err = fmt.Errorf("blob-file accounting differs after Close + Open of a flushed, idle store (only manual compactions): before %+v, after %+v", *blobBefore, after)
+			}
+		}()
 		if s.Flag && !r.Plan.Opt.DisableWAL {
 			// reopen with the WAL somewhere else; the previous location becomes a
 			// recovery directory
@@ -1604,6 +1685,12 @@ func (r *Runner) step(s Step) error {
 			return err
 		}
 		r.L["restart"] = true
+		if blobBefore == nil {
+			r.Wait()
+			if err := r.checkBlobAccounting("after Close + Open"); err != nil {
+				return err
+			}
+		}
 	case "ingest", "ingestexcise":
 		return r.stepIngest(ctx, s)
 	case "excise":
